@@ -66,7 +66,7 @@ PROPS["C15"] = dict(num=15, labs=["doc"], rule=DOC_RULE, nontrivial="at least on
     trusted_base=DOC_TRUSTED, assumptions=["the accumulator's mutex makes each append atomic (C14)"])
 PROPS["C16"] = dict(num=16, labs=["doc"], rule=DOC_RULE, nontrivial="at least one query in the request", trivial_classes=[0, 32, 64, 96],
     signatures={"16.1": "reachable <> (address present)", "16.2": "hop-count min/avg/max inconsistent or outside run lengths", "16.3": "e2e sent/received/loss/min/avg/max/jitter inconsistent",
-                "16.4": "identifiers not fresh / not pairwise distinct / wrong length", "16.5": "JSON does not decode back and re-encode to the same document", "16.6": "JSON keys differ from the published contract", "16.7": "the finished document does not serialise to JSON (e.g. a NaN statistic)"},
+                "16.8": "documents finished concurrently (overlapping requests of one process): an identifier was handed out twice, or is not a 16-byte UUID in base64", "16.4": "identifiers not fresh / not pairwise distinct / wrong length", "16.5": "JSON does not decode back and re-encode to the same document", "16.6": "JSON keys differ from the published contract", "16.7": "the finished document does not serialise to JSON (e.g. a NaN statistic)"},
     trusted_base=DOC_TRUSTED, assumptions=["uuid.New returns a value not returned before (oracle)"])
 PROPS["C17"] = dict(num=17, labs=["doc"], rule=DOC_RULE, nontrivial="at least one run in the request", trivial_classes=[0, 4, 8, 12, 32, 36, 40, 44, 64, 68, 72, 76, 96, 100, 104, 108],
     signatures={"17.1": "a private address (or data derived from it) is still in the output", "17.2": "hop count/order/TTL changed, or a public hop was altered"},
@@ -105,7 +105,7 @@ for _pid, _num, _labs, _sig in [
     ("C04", 4, ["drv", "doc", "eng"], {"4.2": "final document: an end-to-end sample is a round trip although no reply of that probe proved arrival (no hop flagged as destination), or 0 although one did", "4": "destination flag differs from the protocol's proof of arrival from the target", "7": "engine: reported hop (address, RTT, destination flag) is not the reply kept by the merge rule"}),
     ("C05", 5, ["drv", "eng", "doc"], {"5.3": "end-to-end statistics treat a 0 (= no answer) sample as a round trip, or are otherwise not those of the answered probes", "1": "the RTT was measured for a packet that does not answer the probe it was credited to (another probe's send time)", "5": "RTT is negative or not (processing instant - send instant of a probe with that TTL); engine kept a later duplicate"}),
     ("C06", 6, ["drv", "eng", "par"], {"6.5": "the source / destination endpoint reported in a run's result is not the one on the wire (real run, parameter lab kind 12)", "6.1": "probe malformed: version/IHL, TTL byte, length or checksum", "6.2": "probe flow fields differ from the run's", "6.3": "identifier shared with the probe of another TTL", "6": "emission order / pacing / stop-after-destination violated"}),
-    ("C09", 9, ["drv", "eng"], {"9.1": "the driver panicked", "9.2": "a non-empty inbound packet produced a run-aborting error", "9.3": "not-supported from a packet other than the permitted SACK case"}),
+    ("C09", 9, ["drv", "eng"], {"9.4": "the FIRST SendProbe of an in-range TTL failed: inbound packets (e.g. one naming a TTL not sent yet) left the driver in a state in which the engine's next send aborts the run", "9.1": "the driver panicked", "9.2": "a non-empty inbound packet produced a run-aborting error", "9.3": "not-supported from a packet other than the permitted SACK case"}),
 ]:
     PROPS[_pid] = dict(num=_num, labs=_labs, rule=DRV_RULE + (" " + ENG_RULE if "eng" in _labs else "") + (" " + DOC_RULE if "doc" in _labs else ""),
         nontrivial="any case (every case is a distinct operation on a real driver); distinct by input bytes", trivial_classes=[],
